@@ -89,6 +89,11 @@ def run(ck, replay=None):
                 a, b = rng.choice(lst), rng.choice(lst)
                 h, om = rng.choice(gammas(rng, 2, 6))
                 cases.append(([a[0], b[0]], [a[1], b[1]], rel[0], rel[1], h, om, rng.random() < 0.3))
+        # divisible extents with inexact voxel sizes (round-off in length / voxel_size)
+        for n, k, h in [((2, 18), (2, 6), [5.2749881768015765, 1366.3071195600583]), ((18, 20), (6, 5), [0.02307451756169778, 8.505266730807763]),
+                        ((15, 14), (5, 5), [0.3 / 7, 1.0]), ((12, 9), (4, 3), [0.1, 0.7]), ((20, 30), (5, 6), [1e-4 / 3, 1e4 / 3])]:
+            cases.append((list(n), list(k), 0, 1, h, "far", False))
+            cases.append((list(n), list(k), 1, 2, h, "default", True))
         # boundary: the documented example sizes and non-divisible small cases
         for n, k in [((5, 7), (2, 3)), ((12, 12), (6, 6)), ((7, 7), (6, 6)), ((1, 1), (1, 1)), ((9, 10), (4, 3))]:
             cases.append((list(n), list(k), 0, 1, [1.0, 1.0], "default", False))
